@@ -39,6 +39,7 @@ class Engine:
     def __init__(self):
         Node.store.clear()
         self.model = {}
+        self.ghosts = {}      # id -> name of live (never deleted) nodes that the caller no longer references
         self.roots = []
         self.nontrivial = False
         self.problem = None     # (bucket, message) of the first oracle failure of the current step
@@ -234,6 +235,29 @@ class Engine:
             self.model.pop(n.id, None)
         return True
 
+    def op_forget(self, kind, ri):
+        """create / copy / import a tree and keep only its ids: the registry is the only way back to those nodes"""
+        import gc
+        if kind == 0:
+            t = Node("title", content="kept only by id")
+            t.add_child(Node("para"))
+        elif kind == 1:
+            if not self.roots:
+                return False
+            ok, t = self.call("copy", self.roots[ri % len(self.roots)].copy)
+            if not ok:
+                return True
+        else:
+            ok, t = self.call("from_xml", lambda: metapype_io.from_xml("<dataset><title>t</title><creator><organizationName>o"
+                                                                       "</organizationName></creator></dataset>"))
+            if not ok:
+                return True
+        for d in all_nodes(t):
+            self.ghosts[d.id] = d.name
+        del t, d
+        gc.collect()
+        return True
+
     def op_burst(self, count):
         made = [Node("n") for _ in range(count)]
         ids = {n.id for n in made}
@@ -250,9 +274,16 @@ class Engine:
 
     def check_registry(self, op):
         store = Node.store
-        if set(store) != set(self.model):
+        for gid, gname in self.ghosts.items():
+            g = Node.get_node_instance(gid)
+            if g is None or g.name != gname:
+                self.flag("live-node-unregistered:not-referenced-elsewhere",
+                          f"after {str(op)[:80]}: a node ({gname}) that was never deleted and is no longer referenced by "
+                          f"the caller cannot be retrieved by its id")
+                return
+        if set(store) - set(self.ghosts) != set(self.model):
             missing = [self.model[k].name for k in set(self.model) - set(store)][:4]
-            extra = [store[k].name for k in set(store) - set(self.model)][:4]
+            extra = [store[k].name for k in set(store) - set(self.model) - set(self.ghosts)][:4]
             self.flag(("live-node-unregistered:" if missing else "discarded-node-still-registered:") + op[0],
                       f"after {str(op)[:120]}: live nodes missing from the registry {missing}; registered but not live {extra}")
             return
@@ -276,7 +307,8 @@ class RegistryMachine(RuleBasedStateMachine):
             if self.e.problem:
                 machine_violation(self, self.e.problem[0], self.e.problem[1], {"history": self.history})
                 # bucket already confirmed: re-synchronise the model
-                self.e.model = dict(Node.store)
+                self.e.model = {k: v for k, v in Node.store.items() if k not in self.e.ghosts}
+                self.e.ghosts = {k: v for k, v in self.e.ghosts.items() if k in Node.store}
 
     @rule(name=st.sampled_from(["dataset", "title", "creator", "bogus", "para", "a"]))
     def create(self, name):
@@ -326,6 +358,10 @@ class RegistryMachine(RuleBasedStateMachine):
     @rule(n=st.integers(0, 300), children=st.booleans())
     def delete(self, n, children):
         self.do(["delete", n, children])
+
+    @rule(kind=st.integers(0, 2), r=st.integers(0, 30))
+    def forget(self, kind, r):
+        self.do(["forget", kind, r])
 
     @rule()
     def burst(self):
